@@ -144,9 +144,67 @@ pub fn op_import(n: usize, msg: &[u8]) -> String {
     }
 }
 
+extern "C" {
+    // the reference's signature decoder itself (codec.c; the same generic code in both parameter sets)
+    fn PQCLEAN_FALCON512_CLEAN_comp_decode(x: *mut i16, logn: std::os::raw::c_uint, input: *const std::os::raw::c_void, max_in_len: usize) -> usize;
+}
+
+/// `ref_comp_decode <logn> <hex>`: PQClean's `comp_decode` on the byte string: `None` (returns 0) or `Some <coefficients> <bytes consumed>`
+pub fn op_ref_comp_decode(logn: u32, b: &[u8]) -> String {
+    let n = 1usize << logn;
+    let mut x = vec![0i16; n];
+    let v = unsafe { PQCLEAN_FALCON512_CLEAN_comp_decode(x.as_mut_ptr(), logn, b.as_ptr() as *const std::os::raw::c_void, b.len()) };
+    if v == 0 {
+        "None".to_string()
+    } else {
+        format!("Some {} {v}", ints(&x))
+    }
+}
+
 pub fn generate(tier: &str, rng: &mut Prng) -> Vec<Case> {
     let mut ops = vec![];
     let thorough = tier == "thorough";
+    // the Lean transcription of the reference's signature decoder against the C function itself, and both against
+    // Algorithm 18 with the reference's cap: token-built encodings of small degrees (every guard of the decoder), the
+    // degenerate strings, and production-size bodies
+    for logn in 1..=4u32 {
+        let n = 1usize << logn;
+        for _ in 0..(if thorough { 4000 } else { 500 }) {
+            let (b, _) = crate::codecref::gen_encoding(rng, n, None);
+            ops.push(Case::new(format!("ref_comp_decode {logn} {}", hex(&b))));
+        }
+        // runs around the reference's cap (16 zeros) with extreme low bits and both signs, in every position
+        for run in [14usize, 15, 16, 17] {
+            for neg in [false, true] {
+                for low in [0u8, 1, 127] {
+                    for pos in 0..n {
+                        let mut bits = vec![];
+                        for i in 0..n {
+                            if i == pos {
+                                crate::codecref::enc_coef(&mut bits, neg, low, run);
+                            } else {
+                                crate::codecref::enc_value(&mut bits, 3 - i as i32);
+                            }
+                        }
+                        for extra in [0usize, 1] {
+                            let mut by = crate::codecref::bytes_of(&bits);
+                            by.extend(std::iter::repeat(0u8).take(extra));
+                            ops.push(Case::new(format!("ref_comp_decode {logn} {}", hex(&by))));
+                        }
+                    }
+                }
+            }
+        }
+        for l in 0..3usize {
+            ops.push(Case::new(format!("ref_comp_decode {logn} {}", hex(&vec![0x80u8; l]))));
+        }
+    }
+    for (logn, l) in [(9u32, 625usize), (10, 1239)] {
+        for _ in 0..(if thorough { 200 } else { 24 }) {
+            let (b, _) = crate::codecref::gen_encoding(rng, 1 << logn, Some(l));
+            ops.push(Case::new(format!("ref_comp_decode {logn} {}", hex(&b))));
+        }
+    }
     for n in [512usize, 1024] {
         // keys from seeds whose candidate stream contains an (F, G) outside the 8-bit range: exported to the reference
         for ks in crate::seeds::special(n, tier, "range_capital", 3) {
@@ -225,6 +283,25 @@ pub fn oracle(op: &[&str], out: &str) -> Verdict {
         return Verdict::Fail(format!("{} panicked: {out}", op[0]));
     }
     match op[0] {
+        "ref_comp_decode" => {
+            let logn: u32 = op[1].parse().unwrap();
+            let b = unhex(op[2]);
+            let want = crate::codecref::ref_decompress_cap(&b, 1 << logn, Some(16));
+            if out == "None" {
+                return if want.is_none() { Verdict::Pass } else { Verdict::Fail("Algorithm 18 (cap 16) decodes the string, the reference's comp_decode refuses it".into()) };
+            }
+            let p: Vec<&str> = out.split(' ').collect();
+            let x: Vec<i64> = parse_ints(p[1]);
+            let v: usize = p[2].parse().unwrap();
+            let rest_zero = v <= b.len() && b[v..].iter().all(|&c| c == 0);
+            if rest_zero {
+                if want == Some(x) { Verdict::Pass } else { Verdict::Fail("comp_decode accepts (unread bytes zero) but Algorithm 18 with cap 16 does not decode the same vector".into()) }
+            } else if want.is_none() {
+                Verdict::Pass
+            } else {
+                Verdict::Fail("Algorithm 18 (cap 16) accepts although comp_decode leaves non-zero bytes unread".into())
+            }
+        }
         "interop_ours" => {
             if out == "true true" {
                 Verdict::Pass
